@@ -221,13 +221,14 @@ def judge_algebra(fa, part, case):
     sig = f"polynomial.{op}" + (":reverse" if reverse else "")
     rv = (lambda L: list(reversed(L))) if reverse else (lambda L: list(L))
     try:
-        if op == "multiply":
-            got = pol.multiply(rv(P), rv(Q), reverse=reverse)
-            exp = rv(poly_mul(P, Q))
-            ok = list(map(F, got)) == exp
-        elif op == "add":
-            got = pol.add(rv(P), rv(Q), reverse=reverse)
-            exp = rv(poly_add(P, Q))
+        if op in ("multiply", "add"):
+            # a bare number is accepted for either operand (the constant polynomial)
+            a = P[0] if case.get("Pscalar") else rv(P)
+            b = Q[0] if case.get("Qscalar") else rv(Q)
+            if case.get("Pscalar") or case.get("Qscalar"):
+                sig += ":number-operand-" + ("first" if case.get("Pscalar") else "second")
+            got = getattr(pol, op)(a, b, reverse=reverse)
+            exp = rv((poly_mul if op == "multiply" else poly_add)(P, Q))
             ok = list(map(F, got)) == exp
         elif op == "derivative":
             n = case["n"]
@@ -289,6 +290,11 @@ def w_algebra(task):
                         if n <= 3 and m <= 3:
                             judge_algebra(fa, part, dict(kind="algebra", op="multiply", P=Ps, Q=Qs, reverse=reverse))
                             judge_algebra(fa, part, dict(kind="algebra", op="add", P=Ps, Q=Qs, reverse=reverse))
+                            for op_ in ("multiply", "add"):
+                                if m == 1:
+                                    judge_algebra(fa, part, dict(kind="algebra", op=op_, P=Ps, Q=Qs, reverse=reverse, Qscalar=True))
+                                if n == 1:
+                                    judge_algebra(fa, part, dict(kind="algebra", op=op_, P=Ps, Q=Qs, reverse=reverse, Pscalar=True))
     part["samples"].append({"algebra_shard_first_coeff": fr(ALPHA[first]), "maxlen_p": maxlen_p, "maxlen_q": maxlen_q})
     return part
 
